@@ -48,6 +48,7 @@ SvcClauses(i, o, pts) ==
     ELSE IF ~DirectionOK(i.X, i.y, o.sv, o.w16, Q1) THEN "DirectionOK"
     ELSE IF SvcExpChecked(o) /\ ~ExpansionOK(i.kernel, o.sv, o.w10, o.b10, o.kq, pts, o.f10, Q1) THEN "ExpansionOK"
     ELSE IF o.fok /\ IsRootKernel(i.kernel) /\ ~KqRootClosed(i.kernel, o.sv, o.kq, pts) THEN "PolyClosed"
+    ELSE IF o.fok /\ i.kernel.name = "rbf" /\ ~KqRbfClosed(i.kernel, o.sv, o.kq, pts) THEN "RbfClosed"
     ELSE IF ~(o.predint /\ Len(o.fs) = Len(pts) /\ LabelOK(i.y, o.fs, o.pred)) THEN "LabelOK"
     ELSE ""
 
@@ -65,6 +66,7 @@ SvcTags(e) ==
     \cup (IF e.src = "sched" THEN {"SvcSched"} ELSE IF e.src = "unseeded" THEN {"SvcUnseeded"} ELSE {"SvcRand"})
     \cup (IF ~IsSchedule(e.in.sched, Len(e.in.X), e.in.epochs) THEN {"BadSchedule"} ELSE {})
     \cup (IF e.in.api THEN {"SvcApi"} ELSE {})            \* fitted / predicted through the api traits
+    \cup (IF "off" \in DOMAIN e.in /\ e.in.kernel.name = "rbf" THEN {"SvcRbfOffset"} ELSE {})   \* rows shifted by 2^off
     \* label pairs with a special arithmetic shape (y then holds the order-preserving codes 0 / 1)
     \cup (IF e.in.lab # "int" THEN {"SvcFloatLabels", "SvcLab_" \o e.in.lab} ELSE {})
     \cup (IF Len(e.in.X) >= 129 THEN {"SvcLarge"} ELSE {})
@@ -98,6 +100,7 @@ SvrClauses(i, o, pts) ==
     ELSE IF ~SumZero(o.w16, Q1) THEN "SumZero"
     ELSE IF SvcExpChecked(o) /\ ~ExpansionOK(i.kernel, o.sv, o.w10, o.b10, o.kq, pts, o.f10, Q1) THEN "ExpansionOK"
     ELSE IF o.fok /\ IsRootKernel(i.kernel) /\ ~KqRootClosed(i.kernel, o.sv, o.kq, pts) THEN "PolyClosed"
+    ELSE IF o.fok /\ i.kernel.name = "rbf" /\ ~KqRbfClosed(i.kernel, o.sv, o.kq, pts) THEN "RbfClosed"
     ELSE IF PsdKernel(i.kernel) /\ o.fok /\ Len(o.f16) = Len(i.X)
             /\ ~SvrKktOK(i.X, o.sv, o.w16, Residuals(i.y16, o.f16), i.C16, i.eps16, i.tol16, QK) THEN "SvrKKT"
     ELSE ""
@@ -118,6 +121,7 @@ YRange(y16) == SeqMax(y16) - SeqMin(y16)
 SvrTags(e) ==
     {"SvrFit", "Svr_" \o e.in.kernel.name}
     \cup (IF e.in.api THEN {"SvrApi"} ELSE {})
+    \cup (IF "off" \in DOMAIN e.in /\ e.in.kernel.name = "rbf" THEN {"SvrRbfOffset"} ELSE {})
     \cup (IF Len(e.in.X) >= 91 /\ e.status = "ok" /\ 2 * Len(e.out.sv) >= Len(e.in.X) THEN {"SvrLargeDense"} ELSE {})
     \cup (IF YRange(e.in.y16) <= 2 * e.in.eps16 THEN {"SvrNarrowBand"} ELSE {})
     \cup (IF YRange(e.in.y16) <= 2 * e.in.eps16 /\ YRange(e.in.y16) > e.in.eps16 THEN {"SvrBandSkewed"} ELSE {})
@@ -208,6 +212,9 @@ KVerdict(e) == IF e.status # "ok" THEN "KReturns" ELSE KClauses(e.in, e.out)
 
 KTags(e) ==
     {"K_" \o e.in.kernel.name}
+    \* RBF is translation invariant, K(x + c, z + c) = K(x, z): events with in.off = e > 0 were evaluated
+    \* at x + 2^e, z + 2^e and are judged here on the small integers x, z by the same clauses
+    \cup (IF e.in.off > 0 THEN {"RbfOffset"} ELSE {})
     \cup (IF e.in.kernel.name = "poly" /\ e.in.kernel.dd = 1 /\ ~PolyInRange(e.in.kernel, e.in.x, e.in.z, e.in.S) THEN {"KSkipped"} ELSE {})
     \cup (IF RootUndefined(e.in.kernel, e.in.x, e.in.z) THEN {"KRootUndefined"}
           ELSE IF IsRootKernel(e.in.kernel) /\ e.status = "ok" /\ e.out.qok
@@ -245,6 +252,7 @@ GramVerdict(e) ==
 
 GramTagsWith(e, n, dd, aa) ==
     {"Gram_" \o e.in.kernel.name}
+    \cup (IF e.in.off > 0 THEN {"RbfGramOffset"} ELSE {})
     \cup (IF e.in.kernel.name = "rbf" /\ \E p \in Idx(n), q \in Idx(n), r \in Idx(n) :
                 dd[p[1]][p[2]] > 0 /\ dd[q[1]][q[2]] > 0 /\ dd[p[1]][p[2]] + dd[q[1]][q[2]] = dd[r[1]][r[2]]
           THEN {"RbfFunctional"} ELSE {})
@@ -267,6 +275,7 @@ HitNames == {"SvcFit", "Svc_linear", "Svc_rbf", "Svc_poly", "Svc_sigmoid", "SvcS
              "KRoot2", "KRoot4", "KRootUndefined", "FitRootClosed",
              "SvrNarrowBand", "SvrBandSkewed", "SvrConstantTargets", "SvrNoSv", "SvrNoSvKKT",
              "SvcApi", "SvrApi", "SvcLarge", "SvrLargeDense", "BadBatch",
+             "RbfOffset", "RbfGramOffset", "SvcRbfOffset", "SvrRbfOffset",
              "SvcFloatLabels", "SvcLab_unit", "SvcLab_zero", "SvcLab_eps", "SvcLab_adjacent", "SvcLab_huge",
              "SvcLab_tiny", "SvcLab_negzero",
              "SvcBatch", "SvcBatchOver256", "SvcBatchOver1024", "SvrBatch", "SvrBatchOver256", "SvrBatchOver1024",
